@@ -136,7 +136,8 @@ func (f *GlobFilter) Matches(config *domain.FilterConfig, itemName string) bool 
 // matchesPattern checks if a string matches a glob pattern with caching
 func (f *GlobFilter) matchesPattern(s, patternStr string) bool {
 	// caching for perf
-	cacheKey := fmt.Sprintf("%s::%s", s, patternStr)
+	// length-prefix the name so that ("a::b","a*") and ("a","b::a*") cannot share a key
+	cacheKey := fmt.Sprintf("%d:%s::%s", len(s), s, patternStr)
 
 	f.cacheMu.RLock()
 	if result, exists := f.patternCache[cacheKey]; exists {
